@@ -35,9 +35,22 @@ package chain
 
 //@ func Auth.ComputeUnits
 //@   pure
-//@ func (*Transaction).StateKeys
-//@   trusted
+// the declared key set is exactly the union of every action's declared keys (for the transaction's
+// actor and the action's id) and the sponsor's keys; a malformed key is an error; the cached map is
+// returned on later calls
+//@ func (*Transaction).StateKeys props C12
 //@   noframe
+//@   modifies t.stateKeys
+//@   loop 1 invariant 0 <= idx1 && idx1 <= len(t.Actions) && !isnil(stateKeys) && t.stateKeys == old(t.stateKeys)
+//@   loop 1 invariant forall k string :: has(stateKeys, k) == (exists j int :: 0 <= j && j < idx1 && has(Action.StateKeys(t.Actions[j], Auth.Actor(t.Auth), CreateActionID(Transaction.GetID(t), j % 256)), k))
+//@   loop 2 invariant !isnil(stateKeys) && t.stateKeys == old(t.stateKeys)
+//@   loop 2 invariant forall k string :: has(stateKeys, k) == ((exists j int :: 0 <= j && j < idx1 && has(Action.StateKeys(t.Actions[j], Auth.Actor(t.Auth), CreateActionID(Transaction.GetID(t), j % 256)), k)) || has(visited2, k))
+//@   loop 2 invariant forall k string :: has(visited2, k) ==> has(Action.StateKeys(t.Actions[idx1], Auth.Actor(t.Auth), CreateActionID(Transaction.GetID(t), idx1 % 256)), k)
+//@   loop 3 invariant !isnil(stateKeys) && t.stateKeys == old(t.stateKeys)
+//@   loop 3 invariant forall k string :: has(stateKeys, k) == ((exists j int :: 0 <= j && j < len(t.Actions) && has(Action.StateKeys(t.Actions[j], Auth.Actor(t.Auth), CreateActionID(Transaction.GetID(t), j % 256)), k)) || has(visited3, k))
+//@   loop 3 invariant forall k string :: has(visited3, k) ==> has(BalanceHandler.SponsorStateKeys(bh, Auth.Sponsor(t.Auth)), k)
+//@   ensures old(isnil(t.stateKeys)) && err == nil ==> forall k string :: has(result0, k) == ((exists j int :: 0 <= j && j < len(t.Actions) && has(Action.StateKeys(t.Actions[j], Auth.Actor(t.Auth), CreateActionID(Transaction.GetID(t), j % 256)), k)) || has(BalanceHandler.SponsorStateKeys(bh, Auth.Sponsor(t.Auth)), k))
+//@   ensures !old(isnil(t.stateKeys)) ==> err == nil && result0 == old(t.stateKeys)
 // Units (C12): bandwidth is the transaction's size; compute is the rules' base plus every action's and
 // the auth's compute units, summed exactly (an overflow is an error, never a wrapped number).  The
 // storage dimensions are, each, the sum over the DECLARED KEY SET of (key units + declared chunks x
@@ -153,7 +166,9 @@ package chain
 //@ func Action.ComputeUnits
 //@   pure
 //@ func Action.StateKeys
-//@   noframe
+//@   pure
+//@ func BalanceHandler.SponsorStateKeys
+//@   pure
 //@ func AuthFactory.MaxUnits
 //@   pure
 //@ func AuthFactory.Address
